@@ -265,6 +265,7 @@ P17_config  == "P17_config" \notin cviol
 
 -----------------------------------------------------------------------------
 (* configurations *)
+Names1 == << "a.svc" >>
 Names2 == << "a.svc", "b.svc" >>
 Names3 == << "a.svc", "b.svc", "c.svc" >>
 Words5 == {"login", "login-ipr", "dronecheck", "combined", "bogus"}
